@@ -20,8 +20,8 @@ from sim import linkfuncs as LF
 
 PROP = 'C05'
 TIERS = {
-    'quick': {'runs': 3200, 'blocks': 16, 'max_ops': 24, 'hist': 0.01},
-    'thorough': {'runs': 64000, 'blocks': 64, 'max_ops': 60, 'hist': 0.03},
+    'quick': {'runs': 3200, 'blocks': 16, 'max_ops': 24, 'hist': 0.04},
+    'thorough': {'runs': 64000, 'blocks': 64, 'max_ops': 60, 'hist': 0.05},
 }
 RULE = ('Each run is one seeded history interleaving writes {update_components, update_values_from_data (same shape / new shape), '
         'replace a group state, in-place edit of a top-level non-memoised state (range bounds, multi-range pairs, ROI move_to, mask), '
@@ -40,14 +40,16 @@ ASSUMPTIONS = ['both worlds run the same glue code: a bug that is wrong in the s
                'sampling, not proof']
 SIMTIME_NOTE = 'simulated poll-clock seconds advanced by the scheduler (FileWatcher timer)'
 PROBES = ['write_after_read', 'nested_state_after_update', 'shape_change_after_read', 'file_reload_fired', 'linked_mask_after_update',
-          'stat_after_update', 'copy_read', 'view_read', 'poll_tick_no_change', 'poll_after_file_vanished', 'link_swapped_same_endpoints']
+          'stat_after_update', 'copy_read', 'view_read', 'poll_tick_no_change', 'poll_after_file_vanished', 'link_swapped_same_endpoints', 'listener_read_inside_write',
+          'listener_fresh_clone_compared', 'refresh_drops_component', 'refresh_from_kept_source', 'kept_source_updated',
+          'array_shared_between_datasets', 'free_state_read', 'old_state_reapplied', 'viewer_histogram_read', 'viewer_histogram_compared']
 PROBES_THOROUGH_ONLY = []
 
-READS = ('read_mask', 'read_val', 'read_stat', 'read_hist', 'read_copy', 'hv_read')
+READS = ('read_mask', 'read_val', 'read_stat', 'read_hist', 'read_copy', 'hv_read', 'hv_new', 'read_free')
 WEIGHTS = {'upd': 6, 'upd_from': 2, 'set_state': 3, 'edit_top': 3, 'add_comp': 1, 'add_link': 1.5, 'remove_link': 0.7, 'swap_link': 1.5,
            'new_group': 2, 'remove_group': 0.5, 'new': 1, 'append': 1.5, 'rewrite': 1.5, 'advance': 2, 'vanish': 0.2,
            'read_mask': 8, 'read_val': 3, 'read_stat': 3, 'read_hist': 2, 'read_copy': 1, 'check': 1.2,
-           'edit_memo': 2, 'edit_nested': 2}
+           'edit_memo': 2, 'edit_nested': 2, 'upd_src': 1.5, 'new_free': 1, 'read_free': 3, 'reapply': 1}
 VIEWS = [None, None, [[0, 3, 1]], [[1, 4, 2]], 'int0', [[0, 2, 1], [0, 2, 1]]]
 
 
@@ -73,6 +75,8 @@ def generate(rng, cfg, guards):
         ops.append(['append', len(ops) - 1])
         ops.append(['add_link', 0, r8(), 1, r8(), rng.pick(sorted(LF.ONE))])
     ops.append(['new_group', W.gen_recipe(rng, 2, kinds)])
+    # K11: a hub listener that evaluates the selections of the sender inside every message handler (what every viewer does)
+    listener = rng.chance(0.4)
     hist = rng.chance(cfg.get('hist', 0.0))
     if hist:
         # a real histogram viewer (matplotlib, Agg): what it plots is cached in HistogramLayerState
@@ -86,9 +90,17 @@ def generate(rng, cfg, guards):
         elif k == 'append':
             ops.append([k, r8()])
         elif k == 'upd':
-            ops.append([k, r8(), r8(), rng.randrange(10000)])
+            ops.append([k, r8(), r8(), rng.randrange(10000), rng.chance(0.25)])
         elif k == 'upd_from':
-            ops.append([k, r8(), rng.randrange(10000), rng.pick([None, None, 0, 1, 2])])
+            ops.append([k, r8(), rng.randrange(10000), rng.pick([None, None, 0, 1, 2]), rng.chance(0.25), rng.pick([None, None, 0, 1])])
+        elif k == 'upd_src':
+            ops.append([k, r8(), r8(), rng.randrange(10000)])
+        elif k == 'new_free':
+            ops.append([k, W.gen_recipe(rng, 1, kinds)])
+        elif k == 'read_free':
+            ops.append([k, r8(), r8(), rng.randrange(len(VIEWS))])
+        elif k == 'reapply':
+            ops.append([k, r8(), r8()])
         elif k in ('set_state', ):
             ops.append([k, r8(), W.gen_recipe(rng, 2, kinds)])
         elif k == 'new_group':
@@ -124,7 +136,7 @@ def generate(rng, cfg, guards):
         else:
             ops.append(['check'])
     ops.append(['check'])
-    return {'knobs': {'guards': list(guards), 'prop': PROP}, 'ops': ops}
+    return {'knobs': {'guards': list(guards), 'prop': PROP, 'listener': listener}, 'ops': ops}
 
 
 def simplify(case):
@@ -161,6 +173,16 @@ class CacheWorld(W.World):
         self.dirty = False
         self.keep = []
         self.hv = None
+        self.sources = []          # datasets a dataset was refreshed from, kept (and later modified) by their owner
+        self.last_arr = None
+        self.free = []             # selection states that belong to no group (a script holding on to `d.id['x'] > 2`)
+        self.old_states = []       # states replaced on their group, kept by an undo stack or a script
+        self.listener = None
+        self.fresh_violation = None
+
+    def tracked_states(self):
+        out = [g.subset_state for g in self.dc.subset_groups] + self.free + self.old_states
+        return out
 
     def mark_read(self, st):
         if id(st) not in self.read_states:
@@ -227,11 +249,33 @@ def apply_op(w, op, res, reading, skip=False):
                     pass
             res.probe('viewer_histogram_read')
             return 'read'
+        if k == 'hv_new':
+            # a viewer only reads the data: it exists in the warm world only
+            from glue.viewers.histogram.viewer import SimpleHistogramViewer
+            d = w.pick_data(op[1])
+            if d is None or w.hv is not None:
+                return 'none'
+            v = w.app.new_data_viewer(SimpleHistogramViewer)
+            v.add_data(d)
+            nums = [c for c in d.main_components if d.get_kind(c) == 'numerical']
+            v.state.x_att = nums[0]
+            v.state.hist_x_min, v.state.hist_x_max, v.state.hist_n_bin = -5, 13, 6
+            w.hv = v
+            for g in dc.subset_groups:
+                w.mark_read(g.subset_state)
+            return 'read'
         d = w.pick_data(op[1])
         if d is None:
             return 'none'
         try:
-            if k == 'read_mask':
+            if k == 'read_free':
+                if not w.free:
+                    return 'none'
+                st = w.free[op[2] % len(w.free)]
+                w.mark_read(st)
+                res.probe('free_state_read')
+                d.get_mask(st, view=w.view_for(d, op[3]))
+            elif k == 'read_mask':
                 g = w.pick_group(op[2])
                 if g is None:
                     return 'none'
@@ -270,16 +314,6 @@ def apply_op(w, op, res, reading, skip=False):
         return 'read'
     if k == 'new':
         w.new_data(op[1], op[2], op[3], cat=op[4], coords=op[5], special=op[6])
-    elif k == 'hv_new':
-        from glue.viewers.histogram.viewer import SimpleHistogramViewer
-        d = w.pick_data(op[1])
-        if d is not None and w.hv is None:
-            v = w.app.new_data_viewer(SimpleHistogramViewer)
-            v.add_data(d)
-            nums = [c for c in d.main_components if d.get_kind(c) == 'numerical']
-            v.state.x_att = nums[0]
-            v.state.hist_x_min, v.state.hist_x_max, v.state.hist_n_bin = -5, 13, 6
-            w.hv = v
     elif k == 'new_file':
         from glue.core.data_factories import load_data
         path = os.path.join(w.tmp, 'f%d.csv' % len(w.files))
@@ -294,6 +328,8 @@ def apply_op(w, op, res, reading, skip=False):
             dc.append(d)
     elif k == 'upd':
         d = w.pick_data(op[1])
+        if d is not None and 'C05-flood-update' in w.guards and has_flood(w, d):
+            return 'guarded'
         if d is not None:
             mains = [c for c in d.main_components if d.get_kind(c) == 'numerical']
             if mains:
@@ -303,9 +339,38 @@ def apply_op(w, op, res, reading, skip=False):
                     res.probe('nested_state_after_update')
                 if w.read_states and any(l is x for l in w.links for x in dc.external_links):
                     res.probe('linked_mask_after_update')
-                d.update_components({cid: W.values(op[3], d.shape)})
+                arr = W.values(op[3], d.shape)
+                if len(op) > 4 and op[4] and w.last_arr is not None and w.last_arr.shape == d.shape:
+                    # the caller hands the same array object to two datasets
+                    arr = w.last_arr
+                    res.probe('array_shared_between_datasets')
+                w.last_arr = arr
+                d.update_components({cid: arr})
+    elif k == 'upd_src':
+        # the owner of a dataset that another one was refreshed from goes on modifying it
+        if w.sources:
+            p = w.sources[op[1] % len(w.sources)]
+            mains = [c for c in p.main_components if p.get_kind(c) == 'numerical']
+            if mains:
+                res.probe('kept_source_updated')
+                p.update_components({mains[op[2] % len(mains)]: W.values(op[3], p.shape)})
+    elif k == 'new_free':
+        w.free.append(w.build_state(op[1]))
+        del w.free[:-3]
+    elif k == 'reapply':
+        g = w.pick_group(op[1])
+        cands = w.old_states + w.free
+        if g is not None and cands:
+            st = cands[op[2] % len(cands)]
+            if st is not g.subset_state:
+                w.old_states.append(g.subset_state)
+                del w.old_states[:-4]
+                res.probe('old_state_reapplied')
+                g.subset_state = st
     elif k == 'upd_from':
         d = w.pick_data(op[1])
+        if d is not None and 'C05-flood-update' in w.guards and has_flood(w, d):
+            return 'guarded'
         if d is not None:
             shape = d.shape
             if op[3] is not None:
@@ -313,15 +378,33 @@ def apply_op(w, op, res, reading, skip=False):
                 shape = cands[op[3] % len(cands)]
                 if any(isinstance(s.subset_state, S.MaskSubsetState) for s in d.subsets):
                     shape = d.shape
-            other = Data(label=d.label)
-            for j, c in enumerate(d.main_components):
-                if d.get_kind(c) == 'categorical':
-                    other.add_component(W.values(op[2] + j, shape, 'cat'), c.label)
-                else:
-                    other.add_component(W.values(op[2] + j, shape), c.label)
-            other.coords = d.coords
             for c in d.derived_components:
                 return 'skip-derived'
+            drop = len(op) > 4 and op[4] and len(d.main_components) > 1
+            reuse = op[5] if len(op) > 5 else None
+            labels = [c.label for c in d.main_components]
+            other = None
+            if reuse is not None and w.sources:
+                cand = w.sources[reuse % len(w.sources)]
+                if [c.label for c in cand.main_components] == labels and cand.ndim == d.ndim and \
+                        not (cand.shape != d.shape and any(isinstance(s.subset_state, S.MaskSubsetState) for s in d.subsets)):
+                    other = cand
+                    shape = cand.shape
+                    res.probe('refresh_from_kept_source')
+            if other is None:
+                other = Data(label=d.label)
+                for j, c in enumerate(d.main_components):
+                    if drop and j == len(d.main_components) - 1:
+                        # the new version of the dataset no longer has this attribute: it is removed (and announced) half-way
+                        res.probe('refresh_drops_component')
+                        continue
+                    if d.get_kind(c) == 'categorical':
+                        other.add_component(W.values(op[2] + j, shape, 'cat'), c.label)
+                    else:
+                        other.add_component(W.values(op[2] + j, shape), c.label)
+                other.coords = d.coords
+                w.sources.append(other)
+                del w.sources[:-3]
             if shape != d.shape:
                 res.probe('shape_change_after_read')
             d.update_values_from_data(other)
@@ -334,6 +417,8 @@ def apply_op(w, op, res, reading, skip=False):
     elif k == 'set_state':
         g = w.pick_group(op[1])
         if g is not None:
+            w.old_states.append(g.subset_state)
+            del w.old_states[:-4]
             g.subset_state = w.build_state(op[2])
     elif k == 'edit_top':
         g = w.pick_group(op[1])
@@ -409,8 +494,7 @@ def apply_op(w, op, res, reading, skip=False):
             d.add_component(W.values(op[2], d.shape), 'x%d' % w.nx)
     elif k == 'add_link':
         d1, d2 = w.pick_data(op[1]), w.pick_data(op[3])
-        if 'C05-link-change' in w.guards and any(memo_owner(g.subset_state) and id(g.subset_state) in w.read_states
-                                                 for g in dc.subset_groups):
+        if 'C05-link-change' in w.guards and any(memo_owner(st) and id(st) in w.read_states for st in w.tracked_states()):
             return 'guarded'
         if d1 is not None and d1 is not d2:
             a, b = w.pick_cid(d1, op[2], True), w.pick_cid(d2, op[4], True)
@@ -420,8 +504,7 @@ def apply_op(w, op, res, reading, skip=False):
             w.links.append(link)
     elif k == 'remove_link':
         live = [l for l in w.links if any(l is x for x in dc.external_links)]
-        if 'C05-link-change' in w.guards and any(memo_owner(g.subset_state) and id(g.subset_state) in w.read_states
-                                                 for g in dc.subset_groups):
+        if 'C05-link-change' in w.guards and any(memo_owner(st) and id(st) in w.read_states for st in w.tracked_states()):
             return 'guarded'
         if live:
             dc.remove_link(live[op[1] % len(live)])
@@ -429,8 +512,7 @@ def apply_op(w, op, res, reading, skip=False):
         # replace a link by another one with the same end points and a different function, in one link-manager update:
         # the set of reachable attributes stays the same, the values must change
         live = [l for l in w.links if any(l is x for x in dc.external_links)]
-        if 'C05-link-change' in w.guards and any(memo_owner(g.subset_state) and id(g.subset_state) in w.read_states
-                                                 for g in dc.subset_groups):
+        if 'C05-link-change' in w.guards and any(memo_owner(st) and id(st) in w.read_states for st in w.tracked_states()):
             return 'guarded'
         if live:
             old = live[op[1] % len(live)]
@@ -445,6 +527,8 @@ def apply_op(w, op, res, reading, skip=False):
             w.links.append(new)
             res.probe('link_swapped_same_endpoints')
     elif k == 'rewrite':
+        if w.files and 'C05-flood-update' in w.guards and has_flood(w, w.files[0][1]):
+            return 'guarded'
         if w.files:
             f = w.files[0]
             f[2] += 10
@@ -479,12 +563,89 @@ def apply_op(w, op, res, reading, skip=False):
     return 'write'
 
 
+def clone_state(st):
+    """A never-evaluated copy of a selection: new objects at every level of nesting."""
+    from glue.core import subset as S
+    if isinstance(st, S.MultiOrState):
+        return S.MultiOrState([clone_state(x) for x in st.states])
+    if isinstance(st, S.InvertState):
+        return S.InvertState(clone_state(st.state1))
+    if isinstance(st, S.CompositeSubsetState):
+        return type(st)(clone_state(st.state1), clone_state(st.state2))
+    return st.copy()
+
+
+def fresh_mask(d, st):
+    try:
+        return W.mask_of(d, clone_state(st))
+    except Exception as e:       # a copy that cannot even be built (flood fill on an attribute that is gone)
+        return 'error:%s' % type(e).__name__, None
+
+
+def has_flood(w, d):
+    from glue.core import subset as S
+
+    def walk(st):
+        if isinstance(st, S.FloodFillSubsetState):
+            return st.data is d
+        kids = [getattr(st, 'state1', None), getattr(st, 'state2', None)] + list(getattr(st, 'states', ()))
+        return any(walk(x) for x in kids if x is not None)
+    return any(walk(st) for st in w.tracked_states())
+
+
+def install_listener(w, res):
+    """K11: a client whose message handlers evaluate the sender's selections, as every viewer layer does.  The reads land
+    inside the write that broadcast the message.  When the message says 'the numerical values changed' the dataset is
+    consistent again, so what the handler reads must already equal a never-evaluated copy."""
+    from glue.core.hub import HubListener
+    from glue.core.message import Message, NumericalDataChangedMessage
+    from glue.core.data import BaseData
+    from glue.core.subset import Subset
+
+    class ReadingListener(HubListener):
+        busy = False
+
+        def register_to_hub(self, hub):
+            hub.subscribe(self, Message, handler=self.on_message)
+
+        def on_message(self, msg):
+            if self.busy:
+                return
+            d = msg.sender
+            if isinstance(d, Subset):
+                d = d.data
+            if not isinstance(d, BaseData) or d not in w.dc:
+                return
+            self.busy = True
+            try:
+                final = isinstance(msg, NumericalDataChangedMessage)
+                for g in list(w.dc.subset_groups):
+                    st = g.subset_state
+                    w.mark_read(st)
+                    s1, m1 = W.mask_of(d, st)
+                    res.probe('listener_read_inside_write')
+                    if final and s1 == 'ok':
+                        s2, m2 = fresh_mask(d, st)
+                        res.probe('listener_fresh_clone_compared')
+                        res.nchecks += 1
+                        if s2 == 'ok' and (m1.shape != m2.shape or not np.array_equal(m1, m2)):
+                            raise Violation('C05/stale-mask-inside-handler/%s:%s' % (type(msg).__name__, memo_owner(st)),
+                                            'dataset %s: a handler of %s reads %s for a %s, a never-evaluated copy of it gives %s' % (
+                                                d.label, type(msg).__name__, m1.ravel()[:8].astype(int).tolist(), type(st).__name__,
+                                                m2.ravel()[:8].astype(int).tolist()))
+            finally:
+                self.busy = False
+
+    w.listener = ReadingListener()
+    w.listener.register_to_hub(w.dc.hub)
+
+
 def observe(w):
     from glue.core.exceptions import IncompatibleAttribute
     out = []
     groups = list(w.dc.subset_groups)
     for d in w.dc:
-        rec = {'label': d.label, 'shape': list(d.shape), 'vals': [], 'masks': [], 'stats': [], 'hist': []}
+        rec = {'label': d.label, 'shape': list(d.shape), 'vals': [], 'masks': [], 'stats': [], 'hist': [], 'free': [], 'viewer': []}
         for c in d.components:
             try:
                 rec['vals'].append([c.label, W.arr_digest(d[c])])
@@ -500,6 +661,12 @@ def observe(w):
             w.mark_read(g.subset_state)
             st, m = W.mask_of(d, g.subset_state)
             rec['masks'].append([gi, W.arr_digest(m) if st == 'ok' else st])
+            if st == 'ok' and gi > 1 and nums:
+                try:
+                    h = d.compute_histogram([nums[0]], range=[(-5, 13)], bins=[6], subset_state=g.subset_state)
+                    rec['hist'].append([gi, nums[0].label, [float(x) for x in np.asarray(h).ravel()]])
+                except Exception as e:
+                    rec['hist'].append([gi, nums[0].label, 'error:%s' % type(e).__name__])
             if st != 'ok' or gi > 1:
                 continue
             for c in nums:
@@ -516,17 +683,37 @@ def observe(w):
         for c in nums:
             for stat in ('minimum', 'maximum', 'sum'):
                 rec['stats'].append([None, c.label, stat, repr(float(d.compute_statistic(stat, c)))])
+        for c in nums[:1]:
+            h = d.compute_histogram([c], range=[(-5, 13)], bins=[6])
+            rec['hist'].append([None, c.label, [float(x) for x in np.asarray(h).ravel()]])
+        for fi, st in enumerate(w.free):
+            w.mark_read(st)
+            s1, m = W.mask_of(d, st)
+            rec['free'].append([fi, W.arr_digest(m) if s1 == 'ok' else s1])
         out.append(rec)
     if getattr(w, 'hv', None) is not None:
-        vh = []
-        for la in w.hv.layers:
-            try:
-                edges, vals = la.state.histogram
-                vh.append([getattr(la.layer, 'label', ''), [float(x) for x in np.asarray(vals).ravel()]])
-            except Exception as e:
-                vh.append([getattr(la.layer, 'label', ''), 'error:%s' % type(e).__name__])
-        if out:
-            out[0]['hist'] = out[0]['hist'] + [['viewer', vh]]
+        # what the viewer shows (warm world only): [group index or None, attribute, counts], to be compared with the twin's
+        # compute_histogram of the same attribute / selection / bins
+        from glue.core.subset import Subset
+        vs = w.hv.state
+        if (vs.hist_x_min, vs.hist_x_max, vs.hist_n_bin) == (-5, 13, 6) and vs.x_att is not None:
+            for la in w.hv.layers:
+                layer = la.layer
+                d = layer.data if isinstance(layer, Subset) else layer
+                gi = None
+                if isinstance(layer, Subset):
+                    gi = [i for i, g in enumerate(groups) if any(layer is x for x in g.subsets)]
+                    if not gi:
+                        continue
+                    gi = gi[0]
+                rec = [r for r, dd in zip(out, w.dc) if dd is d]
+                if not rec:
+                    continue
+                try:
+                    edges, vals = la.state.histogram
+                    rec[0]['viewer'].append([gi, vs.x_att.label, [float(x) for x in np.asarray(vals).ravel()]])
+                except Exception as e:
+                    pass
     return out
 
 
@@ -534,11 +721,16 @@ def first_diff(a, b):
     if len(a) != len(b):
         return 'number of datasets %d vs %d' % (len(a), len(b)), 'structure'
     for ra, rb in zip(a, b):
-        for key in ('shape', 'vals', 'masks', 'stats', 'hist'):
+        for key in ('shape', 'vals', 'masks', 'stats', 'hist', 'free'):
             if ra[key] != rb[key]:
                 xa = [x for x in ra[key] if x not in rb[key]]
                 xb = [x for x in rb[key] if x not in ra[key]]
                 return 'dataset %s %s: warm world %s, cold twin %s' % (ra['label'], key, xa[:2], xb[:2]), key
+        for ent in ra['viewer']:
+            exp = [h for h in rb['hist'] if h[:2] == ent[:2]]
+            if exp and isinstance(exp[0][2], list) and exp[0][2] != ent[2]:
+                return 'dataset %s: the histogram viewer shows %s for attribute %s selection %s, cold twin computes %s' % (
+                    ra['label'], ent[2], ent[1], ent[0], exp[0][2]), 'viewer-histogram'
     return None, None
 
 
@@ -552,6 +744,9 @@ def run_world(case, res, upto, reading, tmp, decisions):
     auto_refresh(True)
     try:
         w = CacheWorld(case['knobs'], res, tmp, clock)
+        if reading and case['knobs'].get('listener'):
+            install_listener(w, res)
+            res.fault('hub_reentrant_reader')
         obs = {}
         meta = {'last_write': None, 'last_read': None, 'reads': 0, 'war': 0}
         for i, op in enumerate(case['ops'][:upto]):
@@ -578,6 +773,7 @@ def run_world(case, res, upto, reading, tmp, decisions):
                         res.probe('write_after_read')
             elif out == 'check' and reading:
                 check_direct_links(w, meta)
+                check_fresh_copies(w, meta, res)
                 obs[i] = (observe(w), dict(meta), fingerprint(w, meta))
         final = None
         if not reading:
@@ -588,6 +784,27 @@ def run_world(case, res, upto, reading, tmp, decisions):
         auto_refresh(False)
         for t in list(clock.heap):
             t[2].active = False
+
+
+def check_fresh_copies(w, meta, res):
+    """Independent of the twin (which builds its objects before the writes, so a result computed eagerly at construction
+    is equally old in both worlds): every selection must evaluate like a copy of itself made just now."""
+    for d in w.dc:
+        for st in w.tracked_states():
+            s1, m1 = W.mask_of(d, st)
+            if s1 != 'ok':
+                continue
+            w.mark_read(st)
+            s2, m2 = fresh_mask(d, st)
+            res.nchecks += 1
+            if s2 == 'ok' and (m1.shape != m2.shape or not np.array_equal(m1, m2)):
+                # reported after the twin comparison (whose signatures name the same staleness more precisely)
+                if w.fresh_violation is None:
+                    w.fresh_violation = ('C05/stale-vs-fresh-copy/after:%s' % meta['last_write'],
+                                         'dataset %s: a %s evaluates to %s, a copy of it made now to %s' % (
+                                             d.label, type(st).__name__, m1.ravel()[:8].astype(int).tolist(),
+                                             m2.ravel()[:8].astype(int).tolist()))
+                return
 
 
 def check_direct_links(w, meta):
@@ -631,6 +848,7 @@ def execute(case, res):
         env_seed = case.get('env_seed', 0)
         decisions = {}
         w, obs, _ = run_world(case, res, len(case['ops']), True, os.path.join(tmp, 'A'), decisions)
+        fresh_violation = w.fresh_violation
         del w
         checkpoints = sorted(obs)[:3]
         for ci, i in enumerate(checkpoints):
@@ -643,10 +861,15 @@ def execute(case, res):
             if meta['war'] and any(r['masks'] for r in oa):
                 res.nontrivial = True
                 res.fp(*fp)
+            nv = sum(len(r['viewer']) for r in oa)
+            if nv:
+                res.probe('viewer_histogram_compared', nv)
             d, key = first_diff(oa, ob)
             res.log.append(['checkpoint', i, W.arr_digest(np.frombuffer(repr(oa).encode(), dtype=np.uint8))])
             if d:
                 raise Violation('C05/stale-%s/after:%s' % (key, meta['last_write']), 'checkpoint at op %d: %s' % (i, d))
+        if fresh_violation is not None:
+            raise Violation(*fresh_violation)
     finally:
         plt = __import__('sys').modules.get('matplotlib.pyplot')
         if plt is not None:
